@@ -278,6 +278,9 @@ static const struct eventop c08_ops = { "c08", vp_be_init, vp_be_add, vp_be_del,
 
 #ifdef VP_CBMC
 int fputc(int c, FILE *f) { (void)f; return c; }   /* (cbmc's fprintf model calls it; it has no body of its own) */
+/* the wake-up descriptor of evthread_make_base_notifiable(): a write that works or fails hard (EBADF) */
+int eventfd_write(int fd, eventfd_t v) { (void)fd; (void)v; if (vp_bool()) { errno = EBADF; return -1; } return 0; }
+int eventfd_read(int fd, eventfd_t *v) { (void)fd; *v = 1; return 0; }
 #endif
 
 /* ---- the call under test (all scenario choices are concrete here) ---------------------------- */
